@@ -377,11 +377,11 @@ impl CelValue {
 
     pub fn neq(self, rhs: CelValue) -> CelValue {
         self.error_prop_or(rhs, |lhs, rhs| {
-            if let CelValue::Bool(res) = CelValueDyn::eq(&lhs, &rhs) {
-                return CelValue::from_bool(!res);
+            // comparing lists can fail on an element: that failure is the result
+            match CelValueDyn::eq(&lhs, &rhs) {
+                CelValue::Bool(res) => CelValue::from_bool(!res),
+                other => other,
             }
-
-            unreachable!();
         })
     }
 
